@@ -203,11 +203,53 @@ def rule_r8(ctx):
     r.samples.append("%d tail appends of aios, no prepend/insert of an aio anywhere" % n_app)
 
 
+# ---------------------------------------------------------------------------
+# R10: a send that can still be refused has not taken anything out of the message
+
+
+def rule_r10(ctx):
+    r = ctx.rule("C09.R10", "T3", "a refused send hands the message back as it was given: in a function stored in a sock_send / ctx_send "
+                 "slot, protocol data is taken out of the user's message (nni_msg_header_trim* / nni_msg_trim* / *_chop*) only "
+                 "where the operation can no longer be refused -- no nni_aio_start on the user's aio is reachable afterwards. A "
+                 "raw BUS forwarder that retries a refused send (NNG_FLAG_NONBLOCK, zero timeout, aborted aio) otherwise sends "
+                 "the message without its origin header, and the originator gets its own message back", floor=1)
+    prog = ctx.prog
+    TAKE = ("nni_msg_header_trim_u32", "nni_msg_header_trim", "nni_msg_trim_u32", "nni_msg_trim", "nni_msg_header_chop_u32",
+            "nni_msg_header_chop", "nni_msg_chop_u32", "nni_msg_chop", "nni_msg_header_trim_u16", "nni_msg_header_trim_u64")
+    n = 0
+    seen = set()
+    for slot in ("nni_proto_sock_ops.sock_send", "nni_proto_ctx_ops.ctx_send"):
+        for f in prog.slot_fns(slot):
+            if f.cfg_failed or f.name in seen:
+                continue
+            seen.add(f.name)
+            starts = {(c.b, c.i) for c in f.calls("nni_aio_start")}
+            for c in f.calls(TAKE):
+                n += 1
+                after = f.reach((c.b, c.i + 1))
+                late = sorted(p_ for p_ in starts if p_ in after)
+                if late:
+                    ctx.fail(r, f, "message taken apart before the send can still be refused", c.line,
+                             "%s calls %s on the user's message at line %s and reaches nni_aio_start at line %s afterwards: when "
+                             "that refuses the operation (non-blocking, stopped or aborted aio) the caller keeps a message that "
+                             "has lost its protocol header" % (f.name, c.node["fn"], c.line, f.line_of(*late[0])))
+                else:
+                    r.ob(f, "%s at line %s: the operation has been accepted (no nni_aio_start can follow)" % (c.node["fn"], c.line))
+    if n < 1:
+        raise AnalysisBroken("no send slot takes protocol data out of the user's message any more (bus0_sock_send did)")
+
+
 def run(ctx):
     ctx.guard(rule_r1)
     ctx.guard(rule_r3)
     ctx.guard(rule_r7)
     ctx.guard(rule_r8)
+    ctx.guard(rule_r10)
+    from . import c16
+    ctx.guard(c16.rule_r17)          # every other peer gets the message as it was sent: a transport does not write into it
+    for rr in ctx.rules:
+        if rr.id == "C16.R17":
+            rr.id = "C09.R11"
     from . import c13
     ctx.guard(c13.rule_r6)
     for rr in ctx.rules:
